@@ -229,7 +229,7 @@ def gen_any_ops(rng, tier, acc=False, basins=False):
         if r < 0.5:
             ops = gen.resolver_ops(rng)
         elif r < 0.7:
-            ops = ["single"]
+            ops = ["single" if rng.random() < 0.6 else "single:%d" % rng.choice([2, 3, 4])]
         elif r < 0.85:
             ops = ["multi:" + hx(rng.choice([0.0, 1.0, 1.1, 2.0]))]
         else:
